@@ -102,6 +102,7 @@ pub fn run(fields: Vec<String>) -> Vec<String> {
                 c.reserve(1 << 22);
             }
         });
+        crate::FIRST_ERR_MSG.with(|m| *m.borrow_mut() = None);
         let mut it = new_interpreter(&fields[0]);
         // capture fd 1 while the forms run
         std::io::stdout().flush().ok();
@@ -143,6 +144,9 @@ pub fn run(fields: Vec<String>) -> Vec<String> {
             out.push(format!("H {}", ticks.iter().map(|t| (t.2 - base_live).to_string()).collect::<Vec<_>>().join(" ")));
         }
         out.push(format!("O {}", esc(&captured)));
+        if let Some(msg) = crate::FIRST_ERR_MSG.with(|m| m.borrow_mut().take()) {
+            out.push(format!("M {}", esc(&msg)));
+        }
         out
     })
 }
